@@ -906,6 +906,128 @@ example : (Cli.extract [loc0] true s0).map (·.bytes) = [[65, 67]] := by
 example : within s0.len (many ([loc0].flatMap fun l => l s0)) ∧ nonEmpty (many ([loc0].flatMap fun l => l s0)) := by
   decide
 
+/-! ## the re-mappings are what the loops do to the RESIDUES, hence: features read the same residues -/
+
+/-- **`unionDelMap` is where `gts delete` puts the residues**: the surviving residue that was at
+position `x ≥ 0` of the input is at position `unionDelMap … x` of the output (located regions
+inside the record). -/
+theorem delete_residue_at (loc : Seq → List Reg) (erase : Bool) (s : Seq)
+    (hw : within s.len (many (loc s))) (x y : Int) (hx : 0 ≤ x)
+    (h : Cli.unionDelMap (minimize (many (loc s))) x = some y) :
+    0 ≤ y ∧ (Cli.delete loc erase s).bytes[y.toNat]? = s.bytes[x.toNat]? := by
+  unfold Cli.delete
+  rw [Cli.deleteSegs_bytes]
+  rw [← delete_remap_compose] at h
+  exact Cli.foldr_cutB_get _ _
+    (fun o ho => ⟨(minimize_within _ _ hw o ho).1, minimize_fwd _ o ho⟩) x y hx h
+
+/-- **`multiInsMap` is where `gts insert` / `gts infix` put the host's residues**: the residue at
+position `x` of the host (`0 ≤ x < len`) is at position `multiInsMap heads |guest| x` of the
+output (every head `≥ 0`). -/
+theorem insert_residue_at (loc : Seq → List Reg) (embed : Bool) (host guest : Seq)
+    (hw : ∀ h ∈ (loc host).map Reg.head, 0 ≤ h) (x : Int) (hx : 0 ≤ x) (hxl : x < host.len) :
+    (Cli.insert loc embed host guest).bytes[(Cli.multiInsMap ((loc host).map Reg.head) guest.len x).toNat]? =
+      host.bytes[x.toNat]? := by
+  unfold Cli.insert
+  rw [Cli.insertAt_bytes, ← insert_remap_compose _ _ guest.len_nonneg]
+  exact Cli.foldl_splice_get _ guest.bytes host.bytes
+    (fun i hi => hw i ((Cli.sortDesc_perm _).subset hi)) x hx hxl
+
+/-- a residue as a feature reads it: the byte at the position (if any) and the strand -/
+def readAt (bs : List UInt8) (p : Pos) : Option UInt8 × Bool := (bs[p.1.toNat]?, p.2)
+
+/-- **`gts delete`: every feature reads, in the output, the residues it read in the input** — the
+last sentence of the property, literally: for a feature `f` with a well-formed, duplicate-free
+location on non-negative positions, the written record has a feature with the same key and
+qualifiers whose location reads (`readAt`: byte and strand, in order) from the OUTPUT residues
+exactly what `f`'s location read from the INPUT residues at the positions no located region
+covers.  Guards: located regions inside the record, K2 in no step (`Cli.delAbs`). -/
+theorem delete_features_residues_partial (loc : Seq → List Reg) (s : Seq) (f : Feature)
+    (hf : f ∈ s.feats) (hwr : within s.len (many (loc s)))
+    (hw : f.loc.wf = true) (hk2 : Cli.delAbs (minimize (many (loc s))) f.loc = false)
+    (hnd : f.loc.den.Nodup) (hpos : ∀ p ∈ f.loc.den, 0 ≤ p.1) :
+    ∃ f' ∈ (Cli.delete loc false s).feats, f'.key = f.key ∧ f'.props = f.props ∧
+      f'.loc.den.map (readAt (Cli.delete loc false s).bytes) =
+        (f.loc.den.filter fun p => !decide (cover (many (loc s)) p.1)).map (readAt s.bytes) := by
+  obtain ⟨f', h1, h2, h3, h4⟩ := delete_features_eq_partial loc s f hf hw hk2 hnd
+  refine ⟨f', h1, h2, h3, ?_⟩
+  rw [h4]
+  apply Cli.map_filterMapPos_eq
+  intro p hp
+  cases hy : Cli.unionDelMap (minimize (many (loc s))) p.1 with
+  | none =>
+    left
+    exact ⟨rfl, by simp [(unionDelMap_removed_iff _ _).mp hy]⟩
+  | some y =>
+    right
+    refine ⟨y, rfl, ?_, ?_⟩
+    · have : ¬ cover (many (loc s)) p.1 := by
+        intro hc
+        rw [(unionDelMap_removed_iff _ _).mpr hc] at hy
+        cases hy
+      simp [this]
+    · have := (delete_residue_at loc false s hwr p.1 y (hpos p hp) hy).2
+      simp only [readAt, this]
+
+/-- **`gts insert`: every host feature reads, in the output, the residues it read in the host**
+(location well-formed, duplicate-free, on positions of the host; every head `≥ 0`; K2 in no
+step). -/
+theorem insert_host_features_residues_partial (loc : Seq → List Reg) (host guest : Seq) (f : Feature)
+    (hf : f ∈ host.feats) (hwh : ∀ h ∈ (loc host).map Reg.head, 0 ≤ h) (hw : f.loc.wf = true)
+    (hk2 : Cli.insAbs false guest.len (Cli.sortDesc ((loc host).map Reg.head)) f.loc = false)
+    (hnd : f.loc.den.Nodup) (hpos : ∀ p ∈ f.loc.den, 0 ≤ p.1 ∧ p.1 < host.len) :
+    ∃ f' ∈ (Cli.insert loc false host guest).feats, f'.key = f.key ∧ f'.props = f.props ∧
+      f'.loc.den.map (readAt (Cli.insert loc false host guest).bytes) =
+        f.loc.den.map (readAt host.bytes) := by
+  obtain ⟨f', h1, h2, h3, h4⟩ := insert_host_features_eq_partial loc host guest f hf hw hk2 hnd
+  refine ⟨f', h1, h2, h3, ?_⟩
+  rw [h4]
+  unfold mapPos
+  rw [List.map_map]
+  apply List.map_congr_left
+  intro p hp
+  have := insert_residue_at loc false host guest hwh p.1 (hpos p hp).1 (hpos p hp).2
+  simp only [Function.comp, readAt, this]
+
+/-- **`gts insert`: every feature of every guest copy reads, in the output, the residues it read
+in the guest** (descending head list `pre ++ i :: post`, the copy inserted at `i`; every head in
+`[0, len]`; guest location well-formed, duplicate-free, on positions of the guest; K2 in no
+step). -/
+theorem guest_features_residues_partial (loc : Seq → List Reg) (host guest : Seq)
+    (hwh : ∀ h ∈ (loc host).map Reg.head, 0 ≤ h ∧ h ≤ host.len) (pre post : List Int) (i : Int)
+    (hsplit : Cli.sortDesc ((loc host).map Reg.head) = pre ++ i :: post)
+    (f : Feature) (hf : f ∈ guest.feats) (hw : f.loc.wf = true) (hnn : f.loc.nonneg = true)
+    (g1 : Loc.expandAbs f.loc 0 i = false)
+    (g2 : Cli.insAbs false guest.len post (f.loc.expand 0 i) = false)
+    (hnd : f.loc.den.Nodup) (hpos : ∀ p ∈ f.loc.den, p.1 < guest.len) :
+    ∃ f' ∈ (Cli.insert loc false host guest).feats, f'.key = f.key ∧ f'.props = f.props ∧
+      f'.loc.den.map (readAt (Cli.insert loc false host guest).bytes) =
+        f.loc.den.map (readAt guest.bytes) := by
+  obtain ⟨_, _, hi, _⟩ := sortDesc_split _ pre post i hsplit
+  have hi0 := (hwh i hi).1
+  obtain ⟨f', h1, h2, h3, h4⟩ := guest_den_partial loc host guest pre post i hsplit hi0 f hf hw hnn g1 g2
+  refine ⟨f', h1, h2, h3, ?_⟩
+  have h5 := h4.eq_of_nodup (Cli.nodup_mapPos _ _ (fun x x' h => by omega) hnd)
+  rw [h5]
+  unfold mapPos
+  rw [List.map_map]
+  apply List.map_congr_left
+  intro p hp
+  have hp0 := Loc.den_nonneg f.loc hw hnn p hp
+  have hpl := hpos p hp
+  have hcb := guest_copy_bytes loc false host guest hwh pre post i hsplit
+  have hc0 : 0 ≤ i + guest.len * post.length :=
+    Int.add_nonneg hi0 (Int.mul_nonneg guest.len_nonneg (by omega))
+  have hlen : guest.len = guest.bytes.length := rfl
+  have e : (p.1 + (i + guest.len * post.length)).toNat =
+      (i + guest.len * post.length).toNat + p.1.toNat := by omega
+  simp only [Function.comp, readAt, e]
+  congr 1
+  have h6 : ((List.drop (i + guest.len * post.length).toNat (Cli.insert loc false host guest).bytes).take
+      guest.bytes.length)[p.1.toNat]? = guest.bytes[p.1.toNat]? := by rw [hcb]
+  rw [List.getElem?_take, if_pos (by omega), List.getElem?_drop] at h6
+  exact h6
+
 /-! ### non-vacuity of the feature theorems -/
 
 /-- a complement-strand join with partial ends, spanning both cuts / all insertion sites -/
@@ -971,5 +1093,14 @@ example : ((Cli.insert loc2 false s1 guest1).feats.filter (·.key = "misc_featur
     [fwd [2, 5, 6], fwd [3, 4], fwd [7, 8], fwd [9, 10]] ∧
     (Cli.insert loc2 false s1 guest1).bytes =
       [65, 67, 71, 78, 78, 84, 65, 78, 78, 78, 78, 67, 71, 84, 65, 67, 71, 84] := by decide
+
+/-- hypotheses of the `…_residues_partial` theorems (positions inside the records) and the
+residues the join reads before and after `gts delete`: `GT A G C` → complement strand of
+positions 10,8,6,1 -/
+example : within s1.len (many (loc1 s1)) ∧ (∀ p ∈ gene1.loc.den, 0 ≤ p.1 ∧ p.1 < s1.len) ∧
+    (∀ h ∈ (loc2 s1).map Reg.head, 0 ≤ h ∧ h ≤ s1.len) ∧
+    (∀ f ∈ guest1.feats, f.loc.den.Nodup ∧ ∀ p ∈ f.loc.den, p.1 < guest1.len) := by decide
+example : (gene1.loc.den.filter fun p => !decide (cover (many (loc1 s1)) p.1)).map (readAt s1.bytes) =
+    [(some 71, true), (some 65, true), (some 71, true), (some 67, true)] := by decide
 
 end Gts.C15
